@@ -27,6 +27,16 @@ fn near_valid_xz(t: &mut Tape) -> Vec<u8> {
             3 => plan.ov_hflags = Some([t.byte(), t.byte()]),
             4 => plan.check_id = t.below(16) as u8,
             5 => plan.trailing = gen::draw_bytes(t, 8),
+            6 if !plan.blocks.is_empty() => {
+                // every index record (or every one but the first) claims a huge size: sums
+                // over the records reach 2^64 although no single value does
+                let from = t.below(2) as usize;
+                let big = [(1u64 << 63) - 1, (1 << 63) - 3, 1 << 62, (1 << 63) - 4, 1 << 61][t.below(5) as usize];
+                let which = t.below(3);
+                for i in from..plan.blocks.len() {
+                    plan.ov_records.push((i, if which != 1 { Some(big) } else { None }, if which != 0 { Some(big) } else { None }));
+                }
+            }
             _ => {
                 if !plan.blocks.is_empty() {
                     let bi = t.below(plan.blocks.len() as u64) as usize;
@@ -511,7 +521,7 @@ fn exec(sc: &Scenario, ctx: &mut Ctx) -> Vec<Violation> {
 pub static C07: SimpleProp = SimpleProp {
     id: "C07",
     level: "exploration",
-    rule: "one evaluation = one run of a decoding entry point (lzma_decompress_with_options with every option / supplied-size / memlimit combination, lzma2_decompress, xz_decompress, Stream under a random history that keeps calling after errors, raw::LzmaDecoder with any accepted lc/lp/pb/dictionary(incl. 0)/size, raw::Lzma2Decoder) on: uniformly random bytes; a header announcing a 4 GiB dictionary and 2^63 bytes; LZMA2 chunk headers with maximal size fields; valid streams (incl. adversarial long symbols); grammar-generated near-valid .xz (field extremes with CRCs recomputed, 9-byte VLIs, nested/odd filters); each with 0-3 further mutations (bit flip, truncation, splice, duplication, extension, field extremes), a quarter of them with I/O faults injected at random source/sink calls as well — under the overflow-checked and the wrapping build. Monitors: no unwind; heap peak (metering allocator) <= literal table + 8*(input + bytes a correct decoder produces) + 256 KiB (only allocations made while library code runs are metered); a 120 s no-progress supervisor. Non-trivial = non-empty input; distinct by scenario hash",
+    rule: "one evaluation = one run of a decoding entry point (lzma_decompress_with_options with every option / supplied-size / memlimit combination, lzma2_decompress, xz_decompress, Stream under a random history that keeps calling after errors, raw::LzmaDecoder with any accepted lc/lp/pb/dictionary(incl. 0)/size, raw::Lzma2Decoder) on: uniformly random bytes; a header announcing a 4 GiB dictionary and 2^63 bytes; LZMA2 chunk headers with maximal size fields; valid streams (incl. adversarial long symbols); grammar-generated near-valid .xz (field extremes with CRCs recomputed, 9-byte VLIs, nested/odd filters, a size-of-properties that is not what follows, every index record huge at once); each with 0-3 further mutations (bit flip, truncation, splice, duplication, extension, field extremes), a quarter of them with I/O faults injected at random source/sink calls as well — under the overflow-checked and the wrapping build. Monitors: no unwind; heap peak (metering allocator) <= literal table + 8*(input + bytes a correct decoder produces) + 256 KiB (only allocations made while library code runs are metered); a 120 s no-progress supervisor. Non-trivial = non-empty input; distinct by scenario hash",
     runs_quick: 250_000,
     runs_thorough: 20_000_000,
     both_profiles: true,
